@@ -71,6 +71,22 @@ EXPECT.append(("mid = make(chan interface); out = make(chan interface, 1)\nfunc 
                "a stage whose send hits a closed channel fails with an error: its deferred close still runs and the consumer's for-in ends"))
 EXPECT.append(("c = make(chan interface, 3)\ngo hsend(c, 1)\ngo hsend(c, 2)\ngo hsend(c, 3)\na = (<-c) + (<-c) + (<-c)\na", "i:6", "go calls of a Go function deliver their arguments"))
 
+# the relay form `dst <- src` (src a channel): one item of src, converted to dst's element type like any sent value
+for _mk_src, _put, _mk_dst, _want, _why in (
+        ("make(chan interface, 1)", "5", "make(chan int64, 1)", "i:5", "an int64 out of a chan interface into a chan int64"),
+        ("make(chan interface, 1)", "5", "make(chan float64, 1)", "f:4617315517961601024", "an int64 out of a chan interface into a chan float64"),
+        ("make(chan interface, 1)", "[1, 2]", "make(chan []int64, 1)", "other:[]int64:[1 2]", "a list out of a chan interface into a chan []int64"),
+        ("make(chan int64, 1)", "5", "make(chan interface, 1)", "i:5", "a typed item into a chan interface"),
+        ("make(chan int64, 1)", "5", "make(chan int64, 1)", "i:5", "same element types"),
+        ("make(chan int64, 1)", "5", "make(chan float64, 1)", "f:4617315517961601024", "int64 into float64"),
+        ("make(chan interface, 1)", "\"s\"", "make(chan string, 1)", "s:73", "a string out of a chan interface into a chan string")):
+    EXPECT.append(("src = %s; dst = %s; src <- %s; dst <- src; (<-dst)" % (_mk_src, _mk_dst, _put), _want, "relay `dst <- src`: " + _why))
+EXPECT.append(("src = make(chan interface); dst = make(chan int64)\ngo func() { for x in [1, 2, 3] { src <- x }; close(src) }()\n"
+               "go func() { defer func() { close(dst) }(); for i = 0; i < 3; i++ { dst <- src } }()\nr = []; for x in dst { r += x }; r", "[i:1,i:2,i:3]",
+               "a relay stage between a chan interface and a chan int64 delivers every item"))
+EXPECT.append(("src = make(chan interface, 1); dst = make(chan int64, 1); src <- \"x\"; r = \"ok\"; try { dst <- src } catch e { r = \"E\" }; r", "s:45",
+               "a relayed item without a conversion to the element type is an error"))
+
 
 def run(tier, seed, replay=None):
     res = Result(PID, tier, seed)
